@@ -60,7 +60,7 @@ def step1 (s : St) (line : String) : St × String :=
     match c.toNat?, lo.toInt?, hi.toInt? with
     | some c, some lo, some hi =>
       if c ≥ s.n || statusOf s c == .down then (s, "bad-op") else
-      if !planOK s c lo hi then (s, "error") else
+      if !planOK s c lo hi (kind == "count" || kind == "count2") then (s, "error") else
       let pts := unionPts s lo hi
       let out := match kind with
         | "raw" => renderRaw pts false
